@@ -86,6 +86,63 @@ theorem C12_swap_roundtrip {s0 s1 s2 s3 : St} {t1 t3 lo hi : Nat} (h : Roundtrip
   · intro a h1 h2
     rw [p3.mem, rd a (by omega) h2, savedMem_outside s0 a (by omega) (by omega) (by omega)]
 
+/-- **Frame locality.**  One execution of the routine writes only the 64 bytes below the caller's
+    stack pointer and the `from` slot: any region `[lo, hi)` that contains neither (another task's
+    stack) is left untouched.  This discharges the `preserved` hypothesis of `Roundtrip` for every
+    context switch performed by *other* contexts while A is suspended. -/
+theorem C12_swap_frame_local (s s' : St) (t lo hi : Nat)
+    (hsp : s.reg .rsp % 8 = 0) (hsp1 : 64 ≤ s.reg .rsp)
+    (hto : s.reg .rsi % 8 = 0) (hto2 : s.reg .rsi + 88 < W) (hfrom : s.reg .rdi % 8 = 0)
+    (hfrom2 : s.reg .rdi < W)
+    (hstack : s.reg .rsp ≤ lo ∨ hi + 64 ≤ s.reg .rsp) (hslot : s.reg .rdi + 8 ≤ lo ∨ hi ≤ s.reg .rdi)
+    (h : run prog s = some (s', t)) : ∀ a, lo ≤ a → a < hi → s'.mem a = s.mem a := by
+  obtain ⟨s1, t1, r1, p1⟩ := swap_spec s hsp hsp1 hto hto2 hfrom hfrom2
+  rw [h] at r1
+  obtain ⟨rfl, rfl⟩ : s' = s1 ∧ t = t1 := by simpa using r1
+  intro a h1 h2
+  rw [p1.mem, savedMem_outside s a (by omega) (by omega) hsp1]
+
+/-- a switch performed by a context whose stack and `from` slot lie outside `[lo, hi)` -/
+structure Foreign (lo hi : Nat) (s s' : St) (t : Nat) : Prop where
+  sp_al : s.reg .rsp % 8 = 0
+  sp_64 : 64 ≤ s.reg .rsp
+  to_al : s.reg .rsi % 8 = 0
+  to_W : s.reg .rsi + 88 < W
+  from_al : s.reg .rdi % 8 = 0
+  from_W : s.reg .rdi < W
+  stack_out : s.reg .rsp ≤ lo ∨ hi + 64 ≤ s.reg .rsp
+  slot_out : s.reg .rdi + 8 ≤ lo ∨ hi ≤ s.reg .rdi
+  run : X86.run prog s = some (s', t)
+
+/-- A history of the rest of the system while A is suspended: any number of switches by other
+    contexts; before each switch, arbitrary code has run that did not write `[lo, hi)`. -/
+def OtherActivity (lo hi : Nat) : (Nat → Nat) → List (St × St × Nat) → Prop
+  | _, [] => True
+  | m, (s, s', t) :: rest =>
+    (∀ a, lo ≤ a → a < hi → s.mem a = m a) ∧ Foreign lo hi s s' t ∧ OtherActivity lo hi s'.mem rest
+
+def finalMem : (Nat → Nat) → List (St × St × Nat) → (Nat → Nat)
+  | m, [] => m
+  | _, (_, s', _) :: rest => finalMem s'.mem rest
+
+/-- **Any number of switches by other contexts** (with arbitrary non-interfering code in between)
+    leaves A's region as it was — the `preserved` hypothesis of `Roundtrip` follows from stack
+    disjointness alone, for histories of any length. -/
+theorem C12_region_preserved_by_other_switches (lo hi : Nat) :
+    ∀ (steps : List (St × St × Nat)) (m : Nat → Nat), OtherActivity lo hi m steps →
+      ∀ a, lo ≤ a → a < hi → finalMem m steps a = m a := by
+  intro steps
+  induction steps with
+  | nil => intro m _ a _ _; rfl
+  | cons x rest ih =>
+    obtain ⟨s, s', t⟩ := x
+    intro m h a h1 h2
+    obtain ⟨hm, hf, hr⟩ := h
+    simp only [finalMem]
+    rw [ih s'.mem hr a h1 h2,
+      C12_swap_frame_local s s' t lo hi hf.sp_al hf.sp_64 hf.to_al hf.to_W hf.from_al hf.from_W hf.stack_out
+        hf.slot_out hf.run a h1 h2, hm a h1 h2]
+
 /-- The routine is total on aligned states: it always reaches its `jmp` (never the `ud2`, never a
     misaligned access). -/
 theorem C12_swap_defined (s : St) (hsp : s.reg .rsp % 8 = 0) (hsp1 : 64 ≤ s.reg .rsp)
